@@ -329,6 +329,26 @@ def c17(g, tier):
                     ops.append({"op": "write_into", "rel": rel, "len": g.r.choice([0, 5, 64]), "fill": f})
         yield ops
     yield from type0_sessions(g, "C17/type0")
+    # a compound with a CONSERVATIVE third-party member (its calculate_size() is an upper bound of what it writes):
+    # whatever n the compound reports, those n bytes must not depend on what the buffer held before
+    for i in range(120 if tier == "quick" else 3000):
+        r = g.r
+        n_ = r.randrange(1, 5)
+        at = r.randrange(n_)
+        members = []
+        for j in range(n_):
+            if j == at:
+                k, calls = g.custom()
+                calls = [dict(calls[0], reserve=r.choice([4, 8, 12]))] + [c for c in calls[1:] if c["c"] != "probe"]
+            else:
+                k, calls = g.builder(r.choice(["rr", "bye", "app", "sdes", "unk"]), small=True)
+            if j < n_ - 1:
+                calls = [c for c in calls if c["c"] != "padding"]
+            members.append({"kind": k, "calls": calls, "pb": False})
+        calls = [{"c": "new"}] + [{"c": "add_packet", "v": m} for m in members]
+        yield [reset(f"C17/conservative/{i}")] + calls_to_ops("compound", calls) + [
+            {"op": "calc_size"}, {"op": "write_twice", "rel": 0, "len": 64}, {"op": "write_twice", "rel": r.choice([1, 5, 12]), "len": 64},
+            {"op": "write_into", "rel": -1, "len": 64, "fill": 1}]
     yield from reuse_sessions(g, 60 if tier == "quick" else 2000, "C17/reuse")
     # an oversize APP (see D12) with padding: whatever n is reported, the n bytes must not depend on the prefill
     yield [reset("C17/oversize")] + calls_to_ops("app", [{"c": "new", "ssrc": [0, 1], "name": [65]}, {"c": "data", "v": [], "big": {"rep": 7, "n": 262144}},
@@ -781,6 +801,60 @@ def max_packet_sessions(g, sidp, op="parse_all", kinds=("app", "unk", "rr", "pfb
                 yield [reset(f"{sidp}/{nm}/{total}/{pad}"), o]
 
 
+def wrap64k_sessions(g, sidp, op="parse_all", kinds=("app", "unk", "rr", "pfb", "sr"), ks=(1, 2, 3)):
+    """padded packets whose variable part (payload + padding), or whose total, falls just above a multiple of
+    65536 bytes: arithmetic on these lengths in 16 bits wraps to a value smaller than the padding count"""
+    FIX = {"app": 12, "unk": 4, "rr": 32, "pfb": 12, "sr": 28}
+    for nm in kinds:
+        for k in ks:
+            for (pad, d, rel) in ((4, 0, "var"), (8, 4, "var"), (252, 248, "var"), (252, 0, "var"), (12, 8, "tot"), (4, 0, "tot")):
+                total = 65536 * k + d + (FIX[nm] if rel == "var" else 0)
+                if total > 262144:
+                    continue
+                lf = total // 4 - 1
+                if nm == "app":
+                    b = hdr(2, True, 3, 204, lf) + [0, 1, 2, 3, 65, 66, 67, 68] + [5] * (total - 12)
+                elif nm == "unk":
+                    b = hdr(2, True, 0, 77, lf) + [6] * (total - 4)
+                elif nm == "rr":
+                    b = hdr(2, True, 1, 201, lf) + [9, 8, 7, 6] + [3] * 24 + [7] * (total - 32)
+                elif nm == "sr":
+                    b = hdr(2, True, 0, 200, lf) + [9, 8, 7, 6] + [4] * 20 + [7] * (total - 28)
+                else:
+                    b = hdr(2, True, 15, 206, lf) + [0, 0, 0, 1, 0, 0, 0, 2] + [1] * (total - 12)
+                b[-pad:] = [0] * (pad - 1) + [pad]
+                o = {"op": op, "b": b}
+                if op == "parse":
+                    o["kind"] = {"app": "app", "unk": "unknown", "rr": "rr", "pfb": "pfb", "sr": "sr"}[nm]
+                yield [reset(f"{sidp}/{nm}/{k}/{pad}/{d}/{rel}"), o]
+
+
+def alias_pair_sessions(g, sidp, op="parse_all", kinds=("rr", "sr", "app", "tfb", "unk"), ks=(1, 4)):
+    """two strings with the same 4-byte header and the same last byte whose lengths differ by a multiple of 65536
+    bytes, one of them well framed, parsed one right after the other in both orders: whatever is remembered about
+    the one (keyed by header, a narrowed length, the last byte) must not decide the other"""
+    BODY = {"rr": [9, 8, 7, 6] + [3] * 24, "sr": [9, 8, 7, 6] + [4] * 20, "app": [0, 1, 2, 3, 65, 66, 67, 68, 1, 2, 3, 4],
+            "tfb": [0, 0, 0, 1, 0, 0, 0, 2, 0, 7, 0, 1], "unk": [5, 6, 7, 8]}
+    HD = {"rr": (1, 201), "sr": (0, 200), "app": (2, 204), "tfb": (1, 205), "unk": (0, 77)}
+    KIND = {"rr": "rr", "sr": "sr", "app": "app", "tfb": "tfb", "unk": "unknown"}
+    for nm in kinds:
+        cnt, pt = HD[nm]
+        n = 4 + len(BODY[nm])
+        for k in ks:
+            big = n + 65536 * k
+            if big > 262144 + n:
+                continue
+            for framed in ("short", "long"):
+                lf = (n if framed == "short" else big) // 4 - 1
+                if lf > 0xffff:
+                    continue
+                short = hdr(2, False, cnt, pt, lf) + BODY[nm]
+                long_ = short + [7] * (big - n - 1) + [short[-1]]
+                o = (lambda b: dict({"op": op, "b": b}, **({"kind": KIND[nm]} if op == "parse" else {})))
+                first, second = (short, long_) if framed == "short" else (long_, short)
+                yield [reset(f"{sidp}/{nm}/{k}/{framed}"), o(first), o(second), o(first), o(second)]
+
+
 def nack_tiny_universe_sessions(g, n, sidp):
     """very many small NACK builders from a tiny universe of sequence numbers, one after the other in one process:
     whatever one of them leaves behind (a memo keyed by a weak fingerprint) meets a different set soon"""
@@ -810,9 +884,23 @@ def exact_max_sessions(g, sidp):
             k = (tot - 12 - pad) // 4
             adds = [[i % 8192, 1, i % 64] for i in range(k)]
             yield build_session(f"{sidp}/sli/{pad}/{extra}", "pfb", [{"c": "new", "fci": {"f": "sli", "adds": adds}, "owned": True}, {"c": "padding", "v": pad}], rt=False)
+    yield from exact_max_raw_sessions(g, sidp)
     for k in (65535, 65536, 70000):          # more FIR entries than 16 bits count
         adds = [[[i // 65536 + 1, i % 65536], i % 256] for i in range(k)]
         yield build_session(f"{sidp}/firmany/{k}", "pfb", [{"c": "new", "fci": {"f": "fir", "adds": adds}, "owned": False}], rt=False)
+
+def exact_max_raw_sessions(g, sidp, rt=False, over=True):
+    """raw and third-party packets that fit the 65536-word maximum exactly, with and without padding, one word less
+    and one word more"""
+    for pad in (0, 4):
+        for extra in ((-4, 0, 4) if over else (-4, 0)):
+            tot = 262144 + extra
+            yield build_session(f"{sidp}/unk/{pad}/{extra}", "unk", [{"c": "new", "type": 77, "data": [], "big": {"rep": 4, "n": tot - 4 - pad}},
+                                {"c": "count", "v": 31}, {"c": "padding", "v": pad}], rt=(rt and extra <= 0))
+            if extra <= 0:      # third-party writers have no limit of their own to be judged
+                yield build_session(f"{sidp}/custom/{pad}/{extra}", "custom", [{"c": "new", "fam": 7, "ssrc": [1, 2]},
+                                    {"c": "payload", "v": [6] * (tot - 8 - pad)}, {"c": "count", "v": 20}, {"c": "padding", "v": pad}], rt=rt)
+
 
 def item_type_sweep(g, sidp):
     """every SDES item type with an empty, a one-byte and a three-byte value: parsed from bytes and built"""
@@ -1177,6 +1265,8 @@ def c01(g, tier):
     yield from bye_body_sweep(g, "C01/bye")
     yield from huge_direct_sessions(g, "C01/huge")
     yield from max_packet_sessions(g, "C01/max", kinds=("app", "pfb"))
+    yield from alias_pair_sessions(g, "C01/alias", kinds=("rr", "app"), ks=(1,))
+    yield from wrap64k_sessions(g, "C01/wrap", kinds=("app", "pfb", "sr"), ks=((1,) if q else (1, 2, 3)))
     yield from afb_sessions(g, "C01/afb", op="parse_all")
     yield from big_sli_sessions(g, "C01/bigsli")
 
@@ -1192,6 +1282,8 @@ def c08(g, tier):
     yield from bye_body_sweep(g, "C08/bye")
     yield from big_inputs(g, "C08/big", 0)
     yield from max_packet_sessions(g, "C08/max")
+    yield from alias_pair_sessions(g, "C08/alias", ks=((1,) if q else (1, 4)))
+    yield from wrap64k_sessions(g, "C08/wrap", kinds=("app", "rr"), ks=((1,) if q else (1, 2, 3)))
 
 
 def fixed_layout_bodies(g, n, sidp):
@@ -1231,6 +1323,7 @@ def c09(g, tier):
     yield from padding_count_sweep(g, "C09/padcnt")
     yield from bye_body_sweep(g, "C09/bye")
     yield from max_packet_sessions(g, "C09/max", op="parse", kinds=("app", "rr"))
+    yield from wrap64k_sessions(g, "C09/wrap", op="parse", ks=((1, 3) if q else (1, 2, 3)))
     yield from fixed_layout_bodies(g, 4000 if q else 100000, "C09/body")
     for i in range(800 if q else 20000):
         k, calls = g.builder(g.r.choice(["sr", "rr", "app", "bye", "tfb", "pfb", "unk"]), small=g.r.random() < 0.5)
@@ -1284,6 +1377,8 @@ def c12(g, tier):
     yield from reparse_sessions(g, 150 if q else 4000, "C12/reparse")
     yield from count_body_sweep(g, "C12/cnt")
     yield from max_packet_sessions(g, "C12/max")
+    yield from alias_pair_sessions(g, "C12/alias", kinds=("rr", "sr", "unk"), ks=(1,))
+    yield from wrap64k_sessions(g, "C12/wrap", kinds=("app", "unk"), ks=((2,) if q else (1, 2, 3)))
 
 
 def c13(g, tier):
@@ -1434,6 +1529,7 @@ def c18(g, tier):
     yield from huge_direct_sessions(g, "C18/huge")
     yield from big_inputs(g, "C18/big", 0)
     yield from max_packet_sessions(g, "C18/max", kinds=("unk", "rr"))
+    yield from alias_pair_sessions(g, "C18/alias", ks=((1,) if q else (1, 4)))
 
 
 def c19(g, tier):
@@ -1441,7 +1537,7 @@ def c19(g, tier):
     r = g.r
     ops = [reset("C19/check_padding")] + [{"op": "check_padding", "p": p} for p in range(256)]
     yield ops
-    for fam in range(7):
+    for fam in range(9):
         ops = [reset(f"C19/write_header/{fam}")]
         for p in (0, 1, 4, 255):
             for cnt in range(32):
@@ -1456,9 +1552,9 @@ def c19(g, tier):
             ops.append({"op": "write_padding", "p": p, "len": p + extra, "fill": 1})
     yield ops
     # check_packet through the family's parsers on swept headers
-    FAM = [(242, 12), (199, 4), (207, 8), (0, 16), (255, 12), (192, 28), (242, 20)]
+    FAM = [(242, 12), (199, 4), (207, 8), (0, 16), (255, 12), (192, 28), (242, 20), (210, 8), (211, 4)]
     for i in range(3000 if q else 60000):
-        fam = r.randrange(7)
+        fam = r.randrange(9)
         pt, mn = FAM[fam]
         v = 2 if r.random() < 0.85 else r.choice([0, 1, 3])
         p = r.random() < 0.3
@@ -1492,6 +1588,7 @@ def c19(g, tier):
         ops = build_session(f"C19/build/{i}", k, calls, lens=(0, 3), fills=(0, 1), rt=True)
         ops.append({"op": "get_padding"})
         yield ops
+    yield from exact_max_raw_sessions(g, "C19/max", rt=True, over=False)      # one word more is C16's rule (finding D12)
     for i in range(300 if q else 6000):
         n = r.randrange(1, 5)
         members = []
